@@ -1,0 +1,249 @@
+//go:build verif
+
+package pool
+
+// Pool sanitizer for the runtime verification build (build tag "verif").
+//
+// Get:     the whole capacity of the returned array is filled with
+//          pseudo-random bytes (a recycled buffer may contain anything, so
+//          correct code cannot tell the difference).
+// Release: releasing an array that is still quarantined is reported as a
+//          double release. Otherwise the array is filled with poison and
+//          parked in a FIFO quarantine; when it leaves the quarantine the
+//          poison is verified (a changed byte is a write after release) and
+//          only then the array goes back to bytespool.
+//
+// Environment:
+//   VERIF_POOL_LOG         file that receives one JSON line per report
+//   VERIF_POOL_QUARANTINE  max number of quarantined arrays (default 4096, 0 = off)
+//   VERIF_POOL_QBYTES      max bytes in quarantine (default 16 MiB)
+//   VERIF_POOL_NOFILL      "1" disables the fill on Get
+
+import (
+	"encoding/json"
+	"fmt"
+	"os"
+	"runtime"
+	"strconv"
+	"sync"
+	"sync/atomic"
+	"time"
+	"unsafe"
+
+	"github.com/IrineSistiana/bytespool"
+)
+
+const verifOn = true
+
+const verifPoison = 0xDB
+
+type verifQEntry struct {
+	b    []byte // full capacity
+	site string
+}
+
+type VerifReport struct {
+	Kind  string `json:"kind"` // double-release | write-after-release
+	Cap   int    `json:"cap"`
+	Site  string `json:"site"`            // stack of the detecting call
+	Site0 string `json:"site0,omitempty"` // stack of the first release
+	Off   int    `json:"off,omitempty"`   // first modified offset
+}
+
+type VerifStats struct {
+	Gets           uint64 `json:"gets"`
+	Releases       uint64 `json:"releases"`
+	QuarantineExit uint64 `json:"quarantine_exits"`
+	Reports        uint64 `json:"reports"`
+}
+
+var (
+	verifMu      sync.Mutex
+	verifQ       []verifQEntry
+	verifQHead   int
+	verifQBytes  int
+	verifInQ     = map[uintptr]int{} // base ptr -> index+1 into verifQ
+	verifMaxN    = 4096
+	verifMaxB    = 16 << 20
+	verifFill    = true
+	verifLogPath string
+	verifReports []VerifReport
+
+	verifGets, verifReleases, verifExits, verifReportN atomic.Uint64
+	verifRng                                           atomic.Uint64
+)
+
+func init() {
+	if s := os.Getenv("VERIF_POOL_QUARANTINE"); s != "" {
+		if n, err := strconv.Atoi(s); err == nil {
+			verifMaxN = n
+		}
+	}
+	if s := os.Getenv("VERIF_POOL_QBYTES"); s != "" {
+		if n, err := strconv.Atoi(s); err == nil {
+			verifMaxB = n
+		}
+	}
+	if os.Getenv("VERIF_POOL_NOFILL") == "1" {
+		verifFill = false
+	}
+	verifLogPath = os.Getenv("VERIF_POOL_LOG")
+	verifRng.Store(uint64(time.Now().UnixNano()) | 1)
+	if verifLogPath != "" {
+		go func() {
+			for {
+				time.Sleep(250 * time.Millisecond)
+				VerifWriteStats()
+			}
+		}()
+	}
+}
+
+// VerifSetQuarantine changes the quarantine size at run time (0 = off).
+func VerifSetQuarantine(n int) {
+	verifMu.Lock()
+	verifMaxN = n
+	verifMu.Unlock()
+}
+
+func VerifGetStats() VerifStats {
+	return VerifStats{
+		Gets:           verifGets.Load(),
+		Releases:       verifReleases.Load(),
+		QuarantineExit: verifExits.Load(),
+		Reports:        verifReportN.Load(),
+	}
+}
+
+// VerifTakeReports returns and clears the reports collected so far.
+func VerifTakeReports() []VerifReport {
+	verifMu.Lock()
+	defer verifMu.Unlock()
+	r := verifReports
+	verifReports = nil
+	return r
+}
+
+func VerifWriteStats() {
+	if verifLogPath == "" {
+		return
+	}
+	b, _ := json.Marshal(VerifGetStats())
+	os.WriteFile(verifLogPath+".stats", b, 0644)
+}
+
+func verifStack() string {
+	var pcs [12]uintptr
+	n := runtime.Callers(3, pcs[:])
+	frames := runtime.CallersFrames(pcs[:n])
+	s := ""
+	for {
+		f, more := frames.Next()
+		s += fmt.Sprintf("%s:%d;", f.Function, f.Line)
+		if !more {
+			break
+		}
+	}
+	return s
+}
+
+// must be called with verifMu held
+func verifReportLocked(r VerifReport) {
+	verifReportN.Add(1)
+	if len(verifReports) < 1000 {
+		verifReports = append(verifReports, r)
+	}
+	if verifLogPath != "" {
+		if f, err := os.OpenFile(verifLogPath, os.O_APPEND|os.O_CREATE|os.O_WRONLY, 0644); err == nil {
+			b, _ := json.Marshal(r)
+			f.Write(append(b, '\n'))
+			f.Close()
+		}
+	}
+	fmt.Fprintf(os.Stderr, "VERIF-POOL %s cap=%d site=%s site0=%s\n", r.Kind, r.Cap, r.Site, r.Site0)
+}
+
+func verifGet(size int) Buffer {
+	b := bytespool.Get(size)
+	verifGets.Add(1)
+	if c := cap(b); c > 0 && verifFill {
+		full := b[:c]
+		x := verifRng.Add(0x9E3779B97F4A7C15)
+		for i := 0; i < c; i++ {
+			x ^= x << 13
+			x ^= x >> 7
+			x ^= x << 17
+			full[i] = byte(x >> 32)
+		}
+	}
+	return b
+}
+
+// returns true if the sanitizer took the ownership of b.
+func verifRelease(b Buffer) bool {
+	c := cap(b)
+	if b == nil || c == 0 {
+		return false // let bytespool handle (and panic on nil as usual)
+	}
+	verifReleases.Add(1)
+	full := b[:c]
+	base := uintptr(unsafe.Pointer(unsafe.SliceData(full)))
+
+	verifMu.Lock()
+	if verifMaxN <= 0 {
+		verifDrainLocked(0, 0)
+		verifMu.Unlock()
+		return false
+	}
+	if idx, dup := verifInQ[base]; dup {
+		verifReportLocked(VerifReport{Kind: "double-release", Cap: c, Site: verifStack(), Site0: verifQ[idx-1].site})
+		verifMu.Unlock()
+		return true // drop the second release, the array is already parked
+	}
+	for i := range full {
+		full[i] = verifPoison
+	}
+	verifQ = append(verifQ, verifQEntry{b: full, site: verifStack()})
+	verifInQ[base] = len(verifQ)
+	verifQBytes += c
+	verifDrainLocked(verifMaxN, verifMaxB)
+	verifMu.Unlock()
+	return true
+}
+
+// must be called with verifMu held
+func verifDrainLocked(maxN, maxB int) {
+	for verifQHead < len(verifQ) && (len(verifQ)-verifQHead > maxN || verifQBytes > maxB) {
+		e := verifQ[verifQHead]
+		verifQ[verifQHead] = verifQEntry{}
+		verifQHead++
+		verifQBytes -= len(e.b)
+		delete(verifInQ, uintptr(unsafe.Pointer(unsafe.SliceData(e.b))))
+		verifExits.Add(1)
+		for i, v := range e.b {
+			if v != verifPoison {
+				verifReportLocked(VerifReport{Kind: "write-after-release", Cap: len(e.b), Site: "quarantine-exit", Site0: e.site, Off: i})
+				break
+			}
+		}
+		bytespool.Release(e.b)
+	}
+	if verifQHead > 1024 && verifQHead*2 > len(verifQ) { // compact
+		n := copy(verifQ, verifQ[verifQHead:])
+		for i := n; i < len(verifQ); i++ {
+			verifQ[i] = verifQEntry{}
+		}
+		verifQ = verifQ[:n]
+		verifQHead = 0
+		for i, e := range verifQ {
+			verifInQ[uintptr(unsafe.Pointer(unsafe.SliceData(e.b)))] = i + 1
+		}
+	}
+}
+
+// VerifDrain empties the quarantine (verifying every canary).
+func VerifDrain() {
+	verifMu.Lock()
+	verifDrainLocked(0, 0)
+	verifMu.Unlock()
+}
